@@ -1660,6 +1660,13 @@ class Router:
         except IncongruentTimestampException:
             print("Incongruent Timestamp Detected!")
         except DuplicatedPacketException:
+            # §F.3: a duplicate overheard while the packet is still contending in the
+            # CBF buffer stops the timer and discards the buffered copy.
+            with self._cbf_lock:
+                buffered_timer = self._cbf_buffer.pop(
+                    (gbc_extended_header.so_pv.gn_addr, gbc_extended_header.sn), None)
+                if buffered_timer is not None:
+                    buffered_timer.cancel()
             print("Packet is duplicated")
         except DecodeError as e:
             print(str(e))
